@@ -22,6 +22,7 @@ inductive SeqEv where
   | retOk            -- a permit was given back without error
   | retErr           -- ErrLimitReturn / nothing to finish
   | free (k : Nat)   -- measured number of free permits
+  | drained          -- every admitted task was let finish (TaskRunner.Wait blocked until then)
   deriving Repr, DecidableEq
 
 structure SeqMon where
@@ -35,6 +36,7 @@ def SeqMon.check (m : SeqMon) : SeqEv → Option String
   | .refuse => if m.held < m.cap then some s!"refused although only {m.held} of n={m.cap} permits are out (capacity lost)" else none
   | .retOk => if 0 < m.held then none else some "over-return accepted without error (nothing was borrowed)"
   | .retErr => if 0 < m.held then some s!"return reported an error although {m.held} permits are out" else none
+  | .drained => none
   | .free k => if k + m.held = m.cap then none
                else if k + m.held < m.cap then some s!"capacity leaked: free={k} outstanding={m.held} n={m.cap}"
                else some s!"capacity raised: free={k} outstanding={m.held} n={m.cap}"
@@ -42,6 +44,7 @@ def SeqMon.check (m : SeqMon) : SeqEv → Option String
 def SeqMon.step (m : SeqMon) : SeqEv → SeqMon
   | .grant => { m with held := m.held + 1 }
   | .retOk => { m with held := m.held - 1 }
+  | .drained => { m with held := 0 }
   | _ => m
 
 /-- the events a model run produces. -/
